@@ -371,10 +371,11 @@ Manip(Act) == /\ Idle /\ L >= 1 /\ nman < F.maxman /\ Act
               /\ nman' = nman + 1 /\ UNCHANGED <<fam, res>>
 DoReplaceSingle == "Replace" \in F.manips /\ Manip(ReplaceSingle)
 DoReplaceDouble == "Replace" \in F.manips /\ Manip(ReplaceDouble)
-DoLinearize == Manip(Linearize)
-DoDerive == Manip(Derive)
-DoFactorize == Manip(Factorize)
-DoIntegrate == Manip(Integrate)
+\* (a conjunction, not a bare Manip(..): TLC names coverage entries after the outermost definition that is not a mere application)
+DoLinearize == "Lin" \in F.manips /\ Manip(Linearize)
+DoDerive == "Deriv" \in F.manips /\ Manip(Derive)
+DoFactorize == "Factor" \in F.manips /\ Manip(Factorize)
+DoIntegrate == "Int" \in F.manips /\ Manip(Integrate)
 DoReplaceBad == Idle /\ "Replace" \in F.manips /\ nman < F.maxman /\ ReplaceBad
 
 \* ------------------------------------------------------------------ evaluation
